@@ -193,7 +193,7 @@ def _emptiness_only(fact_key: str, prop_key: str) -> bool:
     it does not count as the generator consulting that constraint."""
     k = fact_key.replace(" ", "")
     pk = prop_key
-    return k in (pk, f"eq(len({pk}),0)", f"eq(0,len({pk}))", f"lt(0,len({pk}))", f"gt(len({pk}),0)", f"ne(len({pk}),0)",
+    return k in (pk, f"len({pk})", f"eq(len({pk}),0)", f"eq(0,len({pk}))", f"lt(0,len({pk}))", f"gt(len({pk}),0)", f"ne(len({pk}),0)",
                  f"eq({pk},'')", f"eq('',{pk})")
 
 
@@ -204,7 +204,7 @@ def only_empty_conforms(p: Path, rv: Any) -> bool:
     if not (isinstance(rv, Const) and rv.value == ""):
         return False
     for fk, t, b in p.facts:
-        if fk == "props.alphabet" and b is False:
+        if fk in ("props.alphabet", "len(props.alphabet)") and b is False:
             return True
         if isinstance(t, Term) and t.op == "eq" and b and {a.key() for a in t.args if isinstance(a, V)} in (
                 {"len(props.alphabet)", "0"}, {"props.alphabet", "''"}):
